@@ -58,6 +58,27 @@ def make_oracle(sc, meta):
     return oracle
 
 
+def hypothesis_stat(stream, rt_lines):
+    """how many of the generated messages satisfy the hypothesis of C01_roundtrip (Conforms, evaluated by the model driver on the
+    built message) or of C01_roundtrip_norm (Conforms after normMsg): the theorem speaks about exactly those; the others are
+    covered by the correspondence and the oracle only.  Informative, never a verdict."""
+    if not rt_lines:
+        return dict(of=0)
+    try:
+        o = vlib.run_driver(stream, ['conf' + l[2:] for l in rt_lines])
+    except vlib.BuildError as e:
+        return dict(of=len(rt_lines), error=str(e)[-200:])
+    import collections
+    c = collections.Counter(o)
+    out = dict(of=len(rt_lines), conforms=c.get('conf 1', 0), conforms_after_norm=c.get('conf n', 0), outside=c.get('conf 0', 0),
+               other=len(o) - c.get('conf 1', 0) - c.get('conf n', 0) - c.get('conf 0', 0))
+    ex = [l for l, x in zip(rt_lines, o) if x == 'conf 0']
+    if ex:
+        out['outside_example'] = ex[0][:300]
+        out['outside_with_lone_trailer_length'] = sum(1 for l in ex if ' t93=' in l and ' t89=' not in l)
+    return out
+
+
 def run(res, replay=None):
     rng = vlib.rng_for('C01', res.seed)
     errs = gen_facts.generate(['consts'])
@@ -70,7 +91,8 @@ def run(res, replay=None):
         lines = vlib.corpus_lines('C01') + lines
     res.assumptions += ['values are carried as wire text; the typed field classes are modelled as print(parse(text)); generated values are canonical texts of their type (ints incl. INT_MIN/INT_MAX and negatives, '
                         'printable strings with "=", ms timestamps 1970..2099, dates, month-year, floats with 2-digit dyadic fractions so that binary64 rendering is exact)',
-                        'binary64 arithmetic of modp_dtoa/fast_atof is not modelled (C08 float half)', 'only FIX42UTEST is compiled and dumped; FIX44 is not exercised',
+                        'binary64 arithmetic of modp_dtoa/fast_atof is not modelled (C08 float half)', 'schemas: FIX42UTEST and the stock FIX44 (both compiled from the current tree and dumped into the generated tables)',
+                        'the theorem hypothesis Conforms excludes a Length field that is not followed by its data field (generated here as a lone SignatureLength 93 in the trailer): those messages are judged by the correspondence and the oracle only; coverage.theorem_hypothesis counts them',
                         'Length/data pairs inside repeating groups and the trailer Signature pair are C06 findings and are generated there, not here']
     res.cov['rule'] = ('schema-driven messages: random message type, optional subset with p in {0,.15,.5,.9,1}, type-domain values, group counts 0..4 nested to the schema depth, Length/data pairs in header/body, '
                        'shuffled insertion order; plus every message type once with all optional fields; distinct by line; non-trivial = at least 6 items')
@@ -95,8 +117,10 @@ def run(res, replay=None):
             m44[l] = (mt2, its)
         res.cov['fix44'] = cc.run_second_schema(res, l44, make_oracle(sc44, m44))
         res.cov['fix44']['message_types'] = len({l.split()[1] for l in l44})
+        res.cov['fix44']['theorem_hypothesis'] = hypothesis_stat('codec44', l44)
         for e in errs44:
             res.violation(e, 'generated fact for FIX44 failed: ' + e[:200], no_input=True)
+    res.cov['theorem_hypothesis'] = hypothesis_stat('codec', [l for l in lines if l.startswith('rt ')])
     res.cov['message_types'] = len({l.split()[1] for l in lines if l.startswith('rt ')})
     res.cov['with_groups'] = sum(1 for l in lines if '[' in l)
     res.cov['with_data'] = sum(1 for l in lines if re.search(r' h?(91|213|349|351|355|359|361|363|365)=', l))
